@@ -4,8 +4,8 @@ import chan_common as cc
 def run(tier, seed):
     return cc.run_check("C10", tier, seed,
         mc_cfgs=(["ChanMC_c10.cfg"], ["ChanMC_c10.cfg", "ChanMC_c10t.cfg"]),
-        profiles=[("crash", 2, 300), ("crash", 3, 100)],
-        thorough_profiles=[("crash", 2, 5000), ("crash", 3, 2000)],
+        profiles=[("crash", 2, 200), ("crashcross", 2, 300), ("crash", 3, 80)],
+        thorough_profiles=[("crash", 2, 5000), ("crashcross", 2, 6000), ("crash", 3, 2000)],
         mc_actions=("MAdd", "MSendCS", "MSendRAA", "MDeliver", "MSave", "MCrash"),
         assumptions=cc.COMMON_ASSUMPTIONS + [
             "the ChannelManager snapshot a node restarts from was written while none of its monitor updates was in "
